@@ -54,6 +54,7 @@ import QV.Props.C04
 import QV.Props.C05
 import QV.Props.C13
 import QV.Lemmas.Unbiased
+import QV.GenBridge.SpinConv
 
 namespace QV.Props
 namespace C08
